@@ -346,6 +346,48 @@ func c08Builds(c *vk.Ctx, r *rand.Rand, docs []*model.Doc) []*c08Build {
 			out = append(out, &c08Build{name: "offline", readers: []*bluge.Reader{rd}, merged: true, pending: pend, segments: segs, clean: func() { _ = rd.Close() }})
 		}
 	}
+	// 10b a MERGED segment followed by never-merged ones: the first part goes through the offline writer
+	// (merged segments carry the compact one-hit postings), the rest is appended by an ordinary writer
+	if len(docs) >= 2 {
+		dir := c.TempDir("c08-offapp-")
+		cfg := bx.NoMerge(bluge.DefaultConfig(dir))
+		cut := 1 + r.Intn(len(docs)-1)
+		err, _, panicked := bx.Guarded(func() error {
+			ow, err := bluge.OpenOfflineWriter(bluge.DefaultConfig(dir), 1+r.Intn(cut), 2+r.Intn(4))
+			if err != nil {
+				return err
+			}
+			for _, d := range docs[:cut] {
+				if err := ow.Insert(d.ToBluge()); err != nil {
+					return err
+				}
+			}
+			return ow.Close()
+		})
+		if panicked != "" || err != nil {
+			fail("offline-then-append", fmt.Errorf("%v %s", err, firstLines(panicked, 6)))
+		} else if w, err := bluge.OpenWriter(cfg); err != nil {
+			fail("offline-then-append", err)
+		} else {
+			var e error
+			for i := cut; i < len(docs) && e == nil; {
+				b := bluge.NewBatch()
+				for n := 1 + r.Intn(4); n > 0 && i < len(docs); n-- {
+					b.Insert(docs[i].ToBluge())
+					i++
+				}
+				e = w.Batch(b)
+			}
+			rd, err := w.Reader()
+			if e != nil || err != nil {
+				fail("offline-then-append", fmt.Errorf("%v %v", e, err))
+				_ = w.Close()
+			} else {
+				segs, pend := layoutOf(rd)
+				out = append(out, &c08Build{name: "offline-then-append", readers: []*bluge.Reader{rd}, merged: true, pending: pend, segments: segs, clean: func() { _ = rd.Close(); _ = w.Close() }})
+			}
+		}
+	}
 	// 11 history with junk documents inserted and deleted again (pending deletions), updates of real ones
 	{
 		w, err := bluge.OpenWriter(bx.NoMerge(bluge.InMemoryOnlyConfig()))
@@ -566,6 +608,20 @@ func c08Corpus(c *vk.Ctx, i int) {
 					c.Event("score_comparisons_unmerged", 1)
 				}
 			}
+			// the unscored paths (unadorned optimisations work on the segments' raw postings) on this layout
+			if form != "all" && len(b.readers) == 1 {
+				nb := c08Ask(b, c08Request(q, form, true), form, byV)
+				c.Eval(1)
+				if nb.err != "" {
+					c.Violate("search-error:"+b.name, fmt.Sprintf("query %s (score mode none) on build %s: %s", q, b.name, nb.err), wit(b))
+					continue
+				}
+				if fmt.Sprint(nb.ids) != fmt.Sprint(ra.ids) {
+					c.Violate(pairKey+":match-set-score-none", fmt.Sprintf("query %s (%s, score mode none): %s answers %v, %s answers %v", q, form, ref.name, ra.ids, b.name, nb.ids), wit(b))
+					continue
+				}
+				c.Event("score_none_layout_comparisons", 1)
+			}
 			if len(ra.ids) > 0 && b.segments != ref.segments {
 				c.Distinct(fmt.Sprintf("%s|%s|%s", b.name, form, q.Kind))
 			}
@@ -587,7 +643,7 @@ func c08Corpus(c *vk.Ctx, i int) {
 var _ = index.ItemKindSegment
 
 func runC08(c *vk.Ctx) {
-	c.Rule("generated corpora (including the empty one) built by 13 recipes (one batch; one doc per batch; ice v2; each optimisation off; merge-happy in memory and on disk; close + OpenReader; reopened writer; v2 + merges + Backup + OpenReader; OfflineWriter with any batch size; history with junk inserts, updates and deletes; partition over k indexes + MultiSearch) x generated queries x 6 request forms (score order, all-matches, four field sorts) + score mode none; " +
+	c.Rule("generated corpora (including the empty one) built by 14 recipes (one batch; one doc per batch; ice v2; each optimisation off; merge-happy in memory and on disk; close + OpenReader; reopened writer; v2 + merges + Backup + OpenReader; OfflineWriter with any batch size; OfflineWriter for a prefix then ordinary batches appended (merged segment before un-merged ones); history with junk inserts, updates and deletes; partition over k indexes + MultiSearch) x generated queries x 6 request forms (score order, all-matches, four field sorts), each also with score mode none on every layout; " +
 		"every build's answer compared with the one-batch build: id multiset, stored fields, order of distinct sort keys (tie groups as sets), aggregations, and scores where neither build has merged segments or pending deletions; " +
 		"distinct non-trivial = distinct (recipe, request form, query kind) with a non-empty result on a physically different layout")
 	c.Assume("ties under a field sort are broken by index order, which is layout: only the order of distinct keys is compared",
